@@ -568,20 +568,23 @@ Lemma reuses_perm : forall nm nm' s,
 Proof.
   intros nm nm' s P C.
   assert (G : forall l, (forall e, In e l -> In e nm) ->
-              forall e, find (fun e => str_eqb (snd e) s) l = Some e -> In (fst e, s) nm).
+              forall e, find (fun e : nkey * str => str_eqb (snd e) s) l = Some e -> In (fst e, s) nm).
   { intros l Hl e H. apply find_some in H as [H1 H2]. apply str_eqb_eq in H2. subst s.
     destruct e; simpl. apply Hl. exact H1. }
   unfold reuses_subfamily, first_hit.
-  destruct (find (fun e => str_eqb (snd e) s) nm) as [e|] eqn:E;
-    destruct (find (fun e => str_eqb (snd e) s) nm') as [e'|] eqn:E'.
+  destruct (find (fun e : nkey * str => str_eqb (snd e) s) nm) as [e|] eqn:E;
+    destruct (find (fun e : nkey * str => str_eqb (snd e) s) nm') as [e'|] eqn:E'; cbv beta iota.
   - pose proof (G nm (fun e H => H) e E) as H1.
     pose proof (G nm' (fun e H => Permutation_in e (Permutation_sym P) H) e' E') as H2.
+    destruct e as [[i en] v], e' as [[i' en'] v']. cbn [fst snd] in *.
     destruct C as [C|C].
-    + destruct (C _ H1) as [->| ->]; destruct (C _ H2) as [->| ->]; reflexivity.
-    + destruct (C _ H1) as [A1 A2]. destruct (C _ H2) as [B1 B2].
+    + destruct (C _ H1) as [A|A]; destruct (C _ H2) as [B|B]; cbn [fst] in A, B; subst; reflexivity.
+    + destruct (C _ H1) as [A1 A2]. destruct (C _ H2) as [B1 B2]. cbn [fst] in A1, A2, B1, B2.
       apply N.eqb_neq in A1, A2, B1, B2. rewrite A1, A2, B1, B2. reflexivity.
-  - destruct (find_perm_some _ nm nm' e P E) as [y Hy]. congruence.
-  - destruct (find_perm_some _ nm' nm e' (Permutation_sym P) E') as [y Hy]. congruence.
+  - destruct (find_perm_some (fun e : nkey * str => str_eqb (snd e) s) nm nm' e P E) as [y Hy].
+    rewrite E' in Hy. discriminate.
+  - destruct (find_perm_some (fun e : nkey * str => str_eqb (snd e) s) nm' nm e' (Permutation_sym P) E') as [y Hy].
+    rewrite E in Hy. discriminate.
   - reflexivity.
 Qed.
 
